@@ -1,9 +1,17 @@
 #!/bin/sh
-# Build the framework from files on disk only (offline): Lean model/proofs/driver, Rust harness.
+# Build the framework from files on disk only (offline): translator tables, Lean model/proofs/driver,
+# Rust harness for every feature set the checks use.
 set -e
 cd "$(dirname "$0")"
 export CARGO_NET_OFFLINE=true
+python3 tools/extract.py /repo > /dev/null
 (cd lean && lake build 2>&1 | tail -3)
-(cd harness && cargo build --offline --target-dir target-default 2>&1 | tail -2)
+cd harness
+cargo build --offline --target-dir target-default 2>&1 | tail -1
+cargo build --offline --release --target-dir target-default-rel 2>&1 | tail -1
+for f in unsafe_performance period_type_u16 period_type_u32 period_type_u64 value_type_f32; do
+  cargo build --offline --target-dir target-$f --features $f 2>&1 | tail -1
+done
+cd ..
 mkdir -p work replays evidence
 echo "setup done"
